@@ -113,6 +113,13 @@ pub fn check(case: &Case, obs: &Obs) -> CheckResult {
         ensure!(starts == 1 && len_at_start == 0, "formatter-protocol", "{txt:?}: message_start was called {starts} times (buffer held {len_at_start} bytes at the last call)");
         ensure!(units == queries, "formatter-protocol", "{txt:?}: response_unit was called {units} times for {queries} query units");
         ensure!(ends == (!want.is_empty()) as usize, "formatter-protocol", "{txt:?}: message_end was called {ends} times for a response of {} bytes", want.len());
+        // a transmit buffer that message_start resets, used for two messages in a row: this message, then
+        // (a) a message without queries -> nothing at all, (b) this message again -> its response once
+        let (ra, buf_a, rb, buf_b) = crate::props::c05::two_messages_clearing_formatter(&r.bytes, &case.plans, b"*X;:A", &[]);
+        ensure!(ra.is_ok() && buf_a == want, "framing-foreign-formatter", "{txt:?}: through a resetting formatter: {:?}, expected {:?}", escape(&buf_a), escape(&want));
+        ensure!(rb.is_ok() && buf_b.is_empty(), "framing-after-previous-response", "{txt:?} then \"*X;:A\" through a formatter that message_start resets: the buffer holds {:?} after the message without queries", escape(&buf_b));
+        let (_, _, rb, buf_b) = crate::props::c05::two_messages_clearing_formatter(&r.bytes, &case.plans, &r.bytes, &case.plans);
+        ensure!(rb.is_ok() && buf_b == want, "framing-after-previous-response", "{txt:?} twice through a formatter that message_start resets: the buffer holds {:?}, expected {:?}", escape(&buf_b), escape(&want));
     }
     Ok(())
 }
